@@ -15,5 +15,5 @@ git commit -q -m "verif: contract files and proof harnesses (build tag verif)
 Comment-only contracts (//@ clauses) and small proof-harness functions used by
 /verif/govc. Every file is guarded by '//go:build verif': without the tag
 nothing here is compiled."
-git log --oneline -1 | cut -d' ' -f1 >> /verif/tools/hook_commits.txt
+git rev-parse HEAD >> /verif/tools/hook_commits.txt
 echo "hook commit $(git log --oneline -1)"
